@@ -598,6 +598,20 @@ class Session:
         self.drv.close()
 
 
+def count_reach(res, sess, queries=None, refs=None):
+    """Reach of the headline theorems (bookkeeping only; no verdict depends on it): for every case the
+    driver evaluates the decidable hypotheses of each theorem that speaks about that case on the loaded
+    design and answers "in" or "out:<first failing hypothesis>"."""
+    try:
+        fq = [{"f": "frag", "q": q["f"], "root": q["root"], "sel": q.get("sel", "I")} for q in (queries or [])]
+        fq += [{"f": "fragref", "h": list(k)} for k in (refs or [])]
+        for a in sess.ask(fq):
+            for thm, verdict in a["v"]:
+                res.dist("theorem_fragment:%s:%s" % (thm, verdict))
+    except Exception:  # noqa
+        res.dist("theorem_fragment:bookkeeping-error")
+
+
 # --------------------------------------------------------------------------------------------
 # C11 on one recipe
 # --------------------------------------------------------------------------------------------
@@ -887,6 +901,7 @@ def check_c11(res, sess, recipe, rng, tier_scale, edits=None, tag="gen"):
                 queries.append({"f": f, "root": rj, "rec": rec, "sel": "I"})
                 meta.append((obj, rj, f, rec))
     answers = sess.ask(queries)
+    count_reach(res, sess, queries)
     valid_set = elab.all_valid
     for (obj, rj, f, rec), q, a in zip(meta, queries, answers):
         impl, hrefs = impl_query(sdn, f, obj, rec, "I", ids)
@@ -943,6 +958,7 @@ def check_c11(res, sess, recipe, rng, tier_scale, edits=None, tag="gen"):
     for k, h in hs:
         qs += [{"f": "valid", "h": list(k)}, {"f": "unique", "h": list(k)}, {"f": "name", "h": list(k)}]
     ans = sess.ask(qs)
+    count_reach(res, sess, refs=[k for k, h in hs])
     for n, (k, h) in enumerate(hs):
         av, au, an = ans[3 * n], ans[3 * n + 1], ans[3 * n + 2]
         inp = dict(inp_base, href=list(k))
@@ -1027,6 +1043,7 @@ def check_c11(res, sess, recipe, rng, tier_scale, edits=None, tag="gen"):
             for k, h in hs:
                 qs += [{"f": "valid", "h": list(k)}, {"f": "unique", "h": list(k)}, {"f": "name", "h": list(k)}]
             ans = sess.ask(qs)
+            count_reach(res, sess, refs=[k for k, h in hs])
             ans_names = ans[2::3]
             ans = [a for i, a in enumerate(ans) if i % 3 != 2]
             for n, (k, h) in enumerate(hs):
@@ -1106,6 +1123,7 @@ def check_c11(res, sess, recipe, rng, tier_scale, edits=None, tag="gen"):
                     qs3.append({"f": f, "root": rj, "rec": rec, "sel": "I"})
                     meta3.append((obj, rj, f, rec))
             ans3 = sess.ask(qs3)
+            count_reach(res, sess, qs3)
             for (obj, rj, f, rec), a in zip(meta3, ans3):
                 inp = {"recipe": recipe, "edits": [list(x) for x in done], "query": {"f": f, "root": rj, "rec": rec}}
                 res["evaluations"] += 1
@@ -1158,6 +1176,7 @@ def check_c11(res, sess, recipe, rng, tier_scale, edits=None, tag="gen"):
                     qs2.append({"f": f, "root": {"k": "href", "h": list(k)}, "rec": False, "sel": "I"})
                     meta2.append((k, h, f))
             ans2 = sess.ask(qs2)
+            count_reach(res, sess, qs2)
             for (k, h, f), a in zip(meta2, ans2):
                 inp = {"recipe": recipe, "edits": [list(x) for x in done], "query": {"f": f, "root": {"k": "href", "h": list(k)}, "rec": False}}
                 res["evaluations"] += 1
@@ -1378,6 +1397,7 @@ def _c12_pass(res, sess, b, ids, recipe, rng, tier_scale, tag, only, done):
                 queries.append({"f": f, "root": rj, "rec": False, "sel": "I"})
                 meta.append((kind, h, rj, occ, f, "I"))
     answers = sess.ask(queries)
+    count_reach(res, sess, queries)
     inp_base = {"recipe": recipe, "pin_edits": [list(x) for x in done]} if done else {"recipe": recipe}
     from spydrnet.util.hierarchical_reference import HRef as _HRef
     for (kind, h, rj, occ, f, sel), q, a in zip(meta, queries, answers):
